@@ -96,7 +96,8 @@ def showColl (c : Coll) : String :=
     s!"{v.start} {v.«end»} {showSeq v.seq} {String.ofList v.vtype} {showPhase v.phase}"
   " ".intercalate (s!"coll {idS} {String.ofList c.seqName} {c.vars.length}" :: vars)
 
-def ops : List (String × Op) := [
+/-- `repaired = false`: the code as it is; `true`: with the repairs of F-C13a/F-C13b/F-C13c (see Model) -/
+def opsFor (repaired : Bool) : List (String × Op) := [
   ("altseq", do
       match ← pCommon with
       | none => pure unmodelled
@@ -111,7 +112,7 @@ def ops : List (String × Op) := [
         pure (showR id (do
           let v ← vs
           let loc ← mkLoc bs st
-          let nl ← v.lift par ref loc
+          let nl ← v.lift repaired par ref loc
           match nl with
           | .empty => pure "E"
           | _ => do
@@ -127,7 +128,7 @@ def ops : List (String × Op) := [
         pure (showR showShown (do
           let v ← vs
           let loc ← mkLoc bs st
-          incorporateFeature par ref v loc))),
+          incorporateFeature repaired par ref v loc))),
   ("incC", do
       let c ← pCommon
       let st ← pStrand; let bs ← pBlocks; let _f0 ← pInt
@@ -138,7 +139,7 @@ def ops : List (String × Op) := [
         pure (showR showShown (do
           let v ← vs
           let loc ← mkLoc bs st
-          incorporateCDS par ref v loc))),
+          incorporateCDS repaired par ref v loc))),
   ("incT", do
       let c ← pCommon
       let st ← pStrand; let bs ← pBlocks; let cb ← pBlocks; let _f0 ← pInt
@@ -153,7 +154,7 @@ def ops : List (String × Op) := [
               let v ← vs
               let loc ← mkLoc bs st
               let cl ← mkLoc cb st
-              let (sh, cd) ← incorporateTranscript par ref v loc (some cl)
+              let (sh, cd) ← incorporateTranscript repaired par ref v loc (some cl)
               match cd with
               | some c => pure s!"{showShown sh} | cds {showShown c}"
               | none => pure s!"{showShown sh} | cds none"))
@@ -161,14 +162,19 @@ def ops : List (String × Op) := [
             pure (showR id (do
               let v ← vs
               let loc ← mkLoc bs st
-              let (sh, _) ← incorporateTranscript par ref v loc none
+              let (sh, _) ← incorporateTranscript repaired par ref v loc none
               pure s!"{showShown sh} | cds none"))),
   ("vcf", do
       let recs ← pList pVcfRec
-      match convertVcf recs with
+      match convertVcf repaired recs with
       | none => pure unmodelled
       | some d =>
         pure ("ok " ++ " ".intercalate (d.map fun p =>
           " ".intercalate (s!"seq {String.ofList p.1} {p.2.length}" :: p.2.map showColl))))
 ]
+/-- the operations on the code as it is -/
+def ops : List (String × Op) := opsFor false
+/-- the operations on the repaired code (switch `drivers/C13.lean` to this table once the fixes are in /repo) -/
+def opsRepaired : List (String × Op) := opsFor true
+
 end BioCantor.Driver.Variants
